@@ -11,6 +11,7 @@
 (*      (MC_Life_Straggler)                                                *)
 (*   C  context cancellation  vs  the accept loop  (MC_Life_Cancel)        *)
 (*   D  as A with a second, idle connection                                *)
+(*   E  Shutdown  vs  the start of the serve call  (MC_Life_Startup)       *)
 (* A step "acc"/"conn c"/"sd" lets that process pass its next hook gate.   *)
 (***************************************************************************)
 EXTENDS Integers, Sequences, TLC, Json
@@ -32,13 +33,18 @@ Accepted(k) == ACC(k)
 Case(cfg, steps, tag) == [op |-> "life", k |-> 2, onAccept |-> cfg[1], onClose |-> cfg[2], rejects |-> <<>>, steps |-> steps, tag |-> tag]
 Cfgs == {<<FALSE, FALSE>>, <<TRUE, FALSE>>, <<FALSE, TRUE>>, <<TRUE, TRUE>>}
 
-A == {Case(cfg, Accepted(1) \o <<St("send", 1)>> \o m \o Rep(St("conn", 1), 4), "A") : cfg \in Cfgs, m \in Merges(SD, CONN(1))}
-B == {Case(cfg, m \o Rep(St("conn", 1), 4), "B") : cfg \in {<<FALSE, FALSE>>, <<TRUE, TRUE>>}, m \in Merges(SD, ACC(1))}
-CC == {Case(cfg, m \o ACC(2) \o Rep(St("conn", 1), 4), "C") : cfg \in Cfgs, m \in Merges(<<St("cancel", 0)>>, ACC(1))}
-D == {Case(<<TRUE, TRUE>>, Accepted(1) \o Accepted(2) \o <<St("send", 1)>> \o m \o Rep(St("conn", 1), 4) \o Rep(St("conn", 2), 4), "D") :
+\* every schedule begins with the serve call installing its listener (one "acc" step) - except family E, where
+\* Shutdown races with exactly that step (MC_Life_Startup)
+S0 == <<St("acc", 0)>>
+A == {Case(cfg, S0 \o Accepted(1) \o <<St("send", 1)>> \o m \o Rep(St("conn", 1), 4), "A") : cfg \in Cfgs, m \in Merges(SD, CONN(1))}
+B == {Case(cfg, S0 \o m \o Rep(St("conn", 1), 4), "B") : cfg \in {<<FALSE, FALSE>>, <<TRUE, TRUE>>}, m \in Merges(SD, ACC(1))}
+CC == {Case(cfg, S0 \o m \o ACC(2) \o Rep(St("conn", 1), 4), "C") : cfg \in Cfgs, m \in Merges(<<St("cancel", 0)>>, ACC(1))}
+D == {Case(<<TRUE, TRUE>>, S0 \o Accepted(1) \o Accepted(2) \o <<St("send", 1)>> \o m \o Rep(St("conn", 1), 4) \o Rep(St("conn", 2), 4), "D") :
          m \in Merges(SD, CONN(1))}
 
-Init == c \in A \cup B \cup CC \cup D
+E == {Case(cfg, m \o <<St("dial", 1)>> \o Rep(St("acc", 0), 3), "E") : cfg \in Cfgs, m \in Merges(SD, S0)}
+
+Init == c \in A \cup B \cup CC \cup D \cup E
 Next == UNCHANGED c
 Emit == PrintT(<<"CASE", ToJson(c)>>)
 =============================================================================
